@@ -31,11 +31,12 @@ def main():
     for t in targets:
         d = "/tmp/mutout/" + t
         outp = d + "/confirm.json"
+        pf = d + "/patch.manual.diff" if os.path.exists(d + "/patch.manual.diff") else d + "/patch.diff"
         if os.path.exists(outp):
             continue
         res = {"id": t}
         ensure_wt()
-        rc, o, e = sh("git apply --check %s/patch.diff || patch -p1 -F3 --dry-run -s < %s/patch.diff" % (d, d), cwd=WT)
+        rc, o, e = sh("git apply --check %s || patch -p1 -F3 --dry-run -s < %s" % (pf, pf), cwd=WT)
         res["applies"] = rc == 0
         if rc != 0:
             res["apply_err"] = e[-500:]
@@ -45,7 +46,7 @@ def main():
         if has_demo:
             for mode in ("dev", "release"):
                 base[mode] = run_demo(d, mode)
-        sh("git apply %s/patch.diff || patch -p1 -F3 -s < %s/patch.diff; find . -name '*.orig' -not -path './target/*' -delete" % (d, d), cwd=WT)
+        sh("git apply %s || patch -p1 -F3 -s < %s; find . -name '*.orig' -not -path './target/*' -delete" % (pf, pf), cwd=WT)
         res["head"] = sh("git rev-parse --short HEAD", cwd=WT)[1].strip()
         sh("git diff > %s/patch.rebased.diff" % d, cwd=WT)
         rc, o, e = sh("cargo build --offline --workspace && cargo build --offline --workspace --release", cwd=WT)
